@@ -108,25 +108,29 @@ def allocItem (kind : Kind) (t : Table) : Nat × List Nat × Nat :=
 /-- value stored for a new item: HashMap stores the argument, HashSet has no value, PoolMap default-constructs -/
 def storedValue (kind : Kind) (v : Nat) : Nat := if kind = Kind.map then v else 0
 
+/-- second half of `insert` (key not present): allocate the bucket array if needed, take an item,
+    construct it, push it to the front of its bucket chain, link it before `pos` -/
+def linkNew (kind : Kind) (h : Nat → Nat) (t : Table) (pos k v : Nat) : Table × Nat :=
+  let d : Nat → List Nat := if t.allocated then t.data else fun _ => []   -- `new char[..]` + `Memory::zero`
+  let a := t.allocItem kind
+  let id := a.1
+  let c := h k % t.cap
+  ({ t with
+      allocated := true
+      data := upd d c (id :: d c)                       -- `item->nextCell = *cell; *cell = item`
+      items := upd t.items id ⟨k, storedValue kind v, c⟩
+      order := insertAt pos id t.order
+      size := t.size + 1
+      free := a.2.1
+      blocks := a.2.2 }, id)
+
 /-- `insert(position, key[, value])`; returns the table and the item the returned iterator designates -/
 def insert (kind : Kind) (h : Nat → Nat) (t : Table) (pos k v : Nat) : Table × Nat :=
   match t.find h k with
   | some id =>
     -- HashMap: `*it = value`; HashSet / PoolMap: `return it`
     (if kind = Kind.map then { t with items := upd t.items id { t.items id with value := v } } else t, id)
-  | none =>
-    let d : Nat → List Nat := if t.allocated then t.data else fun _ => []   -- `new char[..]` + `Memory::zero`
-    let a := t.allocItem kind
-    let id := a.1
-    let c := h k % t.cap
-    ({ t with
-        allocated := true
-        data := upd d c (id :: d c)                       -- `item->nextCell = *cell; *cell = item`
-        items := upd t.items id ⟨k, storedValue kind v, c⟩
-        order := insertAt pos id t.order
-        size := t.size + 1
-        free := a.2.1
-        blocks := a.2.2 }, id)
+  | none => t.linkNew kind h pos k v
 
 /-- `remove(iterator)` / PoolMap `remove(const V&)`: unlink from the chain through `cell`, from the order list, push on the free list -/
 def removeItem (t : Table) (id : Nat) : Table :=
